@@ -240,6 +240,38 @@ static void observe(World &w) {
     }
     std::reverse(bwd.begin(), bwd.end());
     if (bwd != fwd) vf::fail(PTI(), "set %d: reverse iteration does not visit the same elements in reverse order", i);
+    {
+      // the other spellings of a step: it++ / it-- yield the OLD position, --it walks back from end()
+      const size_t nfw = fwd.size();
+      std::vector<int> post, back, rpost;
+      auto it = s.begin();
+      for (size_t k = 0; k < nfw; ++k) {
+        auto before = it;
+        auto old = it++;
+        if (!(old == before) || (old == it)) vf::fail(PTI(), "set %d: it++ does not return the position before the step", i);
+        else post.push_back(E::val(*old));
+      }
+      if (!(it == s.end())) vf::fail(PTI(), "set %d: %zu postfix increments from begin() do not reach end()", i, nfw);
+      else if (post != fwd) vf::fail(PTI(), "set %d: *it++ walk visits a different sequence than ++it", i);
+      auto jt = s.end();
+      for (size_t k = 0; k < nfw; ++k) {
+        if (k % 2 == 0) --jt;
+        else {
+          auto before = jt;
+          auto old = jt--;
+          if (!(old == before) || (old == jt)) vf::fail(PTI(), "set %d: it-- does not return the position before the step", i);
+        }
+        back.push_back(E::val(*jt));
+      }
+      std::reverse(back.begin(), back.end());
+      if (!(jt == s.begin())) vf::fail(PTI(), "set %d: %zu decrements from end() do not reach begin()", i, nfw);
+      else if (back != fwd) vf::fail(PTI(), "set %d: walking back from end() with --it / it-- visits a different sequence", i);
+      auto rt = s.rbegin();
+      for (size_t k = 0; k < nfw; ++k) rpost.push_back(E::val(*rt++));
+      std::reverse(rpost.begin(), rpost.end());
+      if (!(rt == s.rend())) vf::fail(PTI(), "set %d: %zu postfix increments from rbegin() do not reach rend()", i, nfw);
+      else if (rpost != fwd) vf::fail(PTI(), "set %d: *rit++ walk visits a different sequence", i);
+    }
     if (cmp_state(s.key_comp()) != cmp_state(m.key_comp()))
       vf::fail(PT(), "set %d: comparator state %d, expected %d (comparator must travel with the set)", i, cmp_state(s.key_comp()), cmp_state(m.key_comp()));
     // lookups for every key of the domain and one absent key below / above
